@@ -80,6 +80,7 @@ structure SpM where
   rows : Nat
   cols : Nat
   ents : Array (Nat × Nat × Int)
+deriving Inhabited
 
 def parseEnt? (s : String) : Option (Nat × Nat × Int) :=
   match s.splitOn "." with
